@@ -94,17 +94,24 @@ def run(ctx):
                "a published slot is not checked for sleeping consumers on some path")
         # every slot of the block: status stores and waiter checks iterate [begin, end)
         def ranged(op):
-            v = L.deep_find(ig, op.obj, lambda d: d.get("k") == "l" and d.get("fr") == 0)
+            # the induction variable may live in a helper expanded into this lambda: resolve start and bound in the frame
+            # that declares it (a helper's parameters resolve to the block bounds the lambda received)
+            hidden = set(f.id for f in ig.frames if getattr(f.fn, "unknown_helper", False))
+            v = L.deep_find(ig, op.obj, lambda d: d.get("k") == "l" and (d.get("fr") == 0 or d.get("fr") in hidden))
             if v is None:
                 return False
-            init_ok = any(how == "decl" and isinstance(strip_cast(r_), dict) and strip_cast(r_).get("k") == "p" and
-                          strip_cast(r_).get("i") == 0 for n_, r_, how in ig.local_defs(ig.frames[0], v["id"]))
+            fr = ig.frames[v["fr"]]
+
+            def is_root_param(d, i):
+                d = strip_cast(ig.resolve(d, fr))
+                return isinstance(d, dict) and d.get("k") == "p" and d.get("i") == i and d.get("fr", 0) == 0
+            init_ok = any(how == "decl" and is_root_param(r_, 0) for n_, r_, how in ig.local_defs(fr, v["id"]))
             bound_ok = False
-            for bid, b in fn.blocks.items():
+            for bid, b in fr.fn.blocks.items():
                 if b.get("term") == "ForStmt" and "cond" in b:
                     c = L.cmp_parts(b["cond"])
                     if c and c[0] in ("!=", "<") and strip_cast(c[1]).get("k") == "l" and strip_cast(c[1]).get("id") == v["id"] and \
-                            strip_cast(c[2]).get("k") == "p" and strip_cast(c[2]).get("i") == 1:
+                            is_root_param(c[2], 1):
                         bound_ok = True
             return init_ok and bound_ok
         for a in stores + wloads:
